@@ -79,6 +79,9 @@ type Repository struct {
 
 	invalidHashes []bitcoin.Hash32
 
+	// Main header set file that is beyond the saved headers and still needs to be deleted.
+	staleHeadersFile string
+
 	sync.Mutex
 }
 
@@ -868,6 +871,10 @@ func (repo *Repository) clean(ctx context.Context) error {
 		return errors.Wrap(err, "prune")
 	}
 
+	if err := repo.removeStaleHeadersFile(ctx); err != nil {
+		return errors.Wrap(err, "stale headers file")
+	}
+
 	if err := saveInvalidHashes(ctx, repo.store, repo.invalidHashes); err != nil {
 		return errors.Wrap(err, "invalid hashes")
 	}
@@ -1074,8 +1081,23 @@ func (repo *Repository) saveMainBranch(ctx context.Context) error {
 		path = headersFilePath(file)
 	}
 
-	// Delete next file if it exists to prevent loading it later. In case the chain has less headers
-	// now.
+	// The next file needs to be deleted if it exists to prevent loading it later, in case the chain
+	// has less headers now. That is done after the branches are saved because until then the saved
+	// branches can still need it.
+	repo.staleHeadersFile = path
+
+	return nil
+}
+
+// removeStaleHeadersFile deletes the main header set file after the last file written by
+// saveMainBranch.
+func (repo *Repository) removeStaleHeadersFile(ctx context.Context) error {
+	if len(repo.staleHeadersFile) == 0 {
+		return nil
+	}
+
+	path := repo.staleHeadersFile
+	repo.staleHeadersFile = ""
 	if err := repo.store.Remove(ctx, path); err != nil && errors.Cause(err) != storage.ErrNotFound {
 		return errors.Wrap(err, "remove after last")
 	}
@@ -1162,6 +1184,10 @@ func (repo *Repository) Save(ctx context.Context) error {
 
 	if err := repo.saveBranches(ctx); err != nil {
 		return errors.Wrap(err, "branches")
+	}
+
+	if err := repo.removeStaleHeadersFile(ctx); err != nil {
+		return errors.Wrap(err, "stale headers file")
 	}
 
 	if err := saveInvalidHashes(ctx, repo.store, repo.invalidHashes); err != nil {
